@@ -103,6 +103,12 @@ func (d *simMintDB) RemovePendingProofs(Ys []string) error {
 	}
 	return d.inner.RemovePendingProofs(Ys)
 }
+func (d *simMintDB) SettlePendingProofs(Ys []string) error {
+	if d.pre(fmt.Sprintf("db.SettlePendingProofs n=%d", len(Ys))) {
+		return ErrInjectedDB
+	}
+	return d.inner.SettlePendingProofs(Ys)
+}
 func (d *simMintDB) SaveMintQuote(q storage.MintQuote) error {
 	if d.pre("db.SaveMintQuote " + short(q.Id)) {
 		return ErrInjectedDB
@@ -126,6 +132,12 @@ func (d *simMintDB) UpdateMintQuoteState(id string, st nut04.State) error {
 		return ErrInjectedDB
 	}
 	return d.inner.UpdateMintQuoteState(id, st)
+}
+func (d *simMintDB) CompareAndSetMintQuoteState(id string, cur, st nut04.State) (bool, error) {
+	if d.pre("db.CompareAndSetMintQuoteState " + short(id) + " " + cur.String() + "->" + st.String()) {
+		return false, ErrInjectedDB
+	}
+	return d.inner.CompareAndSetMintQuoteState(id, cur, st)
 }
 func (d *simMintDB) SaveMeltQuote(q storage.MeltQuote) error {
 	if d.pre("db.SaveMeltQuote " + short(q.Id)) {
